@@ -4,6 +4,8 @@ package main
 // entry points with signed transactions. Nothing here re-implements module logic.
 
 import (
+	govtypes "github.com/cosmos/cosmos-sdk/x/gov/types"
+	govv1 "github.com/cosmos/cosmos-sdk/x/gov/types/v1"
 	nodekeeper "github.com/SaoNetwork/sao/x/node/keeper"
 	"bufio"
 	"encoding/base64"
@@ -57,6 +59,7 @@ type GenesisSpec struct {
 	ValBonds     []int64 // optional per-validator self bond (overrides ValSelfBond)
 	MaxVals      uint32
 	StreamW      *bufio.Writer
+	GovVoting    time.Duration // when set: governance deposits in the bond denom and this voting period
 }
 
 type Chain struct {
@@ -206,6 +209,13 @@ func NewChain(spec GenesisSpec, startTime time.Time) (*Chain, error) {
 		dg.Params.BuiltinDid = spec.BuiltinDids
 	}
 	gen[didtypes.ModuleName] = enc.Marshaler.MustMarshalJSON(dg)
+
+	if spec.GovVoting > 0 {
+		gg := govv1.DefaultGenesisState()
+		gg.DepositParams.MinDeposit = sdk.NewCoins(sdk.NewInt64Coin(Denom, 1000))
+		gg.VotingParams.VotingPeriod = &spec.GovVoting
+		gen[govtypes.ModuleName] = enc.Marshaler.MustMarshalJSON(gg)
+	}
 
 	stateBytes, err := json.Marshal(gen)
 	if err != nil {
